@@ -60,6 +60,37 @@ BIN(h_sub_21, k_sub_21, 2, 1, MAXE*MAXE, MAXE)
 BIN(h_sub_12, k_sub_12, 1, 2, MAXE, MAXE*MAXE)
 BIN(h_sub_22, k_sub_22, 2, 2, MAXE*MAXE, MAXE*MAXE)
 
+BIN(h_sub_32, k_sub_32, 3, 2, MAXE*MAXE*MAXE, MAXE*MAXE)
+/* a view as operand: transpose(a) has shape (c,r) and element (i,j) = a[j][i] */
+void h_sub_t21(void){
+  u64 sa[2], st[2], sb[1], idx[4], os[4] = {0}, od = 0, ex[4], nd; u32 da[16], db[4], out = 0;
+  in_shape(sa, 2); in_shape(sb, 1); in_data(da, MAXE*MAXE); in_data(db, MAXE); st[0] = sa[1]; st[1] = sa[0];
+  int ok = bcast2(st, 2, sb, 1, ex, &nd); in_index(idx, ex, nd, ok);
+  int r = k_sub_t21(sa, da, sb, db, idx, nd, os, &od, &out);
+  ASSERT((r == 1) == ok && (r == 0 || r == 1), "accepted iff transpose(a) and b are broadcastable");
+  if (r == 1){ ASSERT(od == 2 && os[0] == ex[0] && os[1] == ex[1], "shape == broadcast(shape(a) reversed, shape(b))");
+    u64 ti = st[0] == 1 ? 0 : idx[0], tj = st[1] == 1 ? 0 : idx[1];
+    ASSERT(out == (u32)(da[tj*sa[1] + ti] - db[bsrc(sb, 1, idx, 2)]), "element == transpose(a)[bcast i] - b[bcast i]"); }
+  OBS(r); OBS(out); REACHED();
+}
+void h_neg_t2(void){
+  u64 sa[2], st[2], idx[4], os[4] = {0}, od = 0; u32 da[16], out = 0;
+  in_shape(sa, 2); in_data(da, MAXE*MAXE); st[0] = sa[1]; st[1] = sa[0]; in_index(idx, st, 2, 1);
+  int r = k_neg_t2(sa, da, idx, 2, os, &od, &out);
+  ASSERT(r == 1 && od == 2 && os[0] == st[0] && os[1] == st[1], "unary view over a view operand keeps the operand's shape");
+  ASSERT(out == (u32)(0u - da[idx[1]*sa[1] + idx[0]]), "element == -transpose(a)[i]");
+  OBS(out); REACHED();
+}
+void h_sub_u8_21(void){
+  u64 sa[2], sb[1], idx[4], os[4] = {0}, od = 0, ex[4], nd; u8 da[16]; u32 db[4], out = 0;
+  in_shape(sa, 2); in_shape(sb, 1); for (int i = 0; i < MAXE*MAXE; i++) da[i] = in_any8(); in_data(db, MAXE);
+  int ok = bcast2(sa, 2, sb, 1, ex, &nd); in_index(idx, ex, nd, ok);
+  int r = k_sub_u8_21(sa, da, sb, db, idx, nd, os, &od, &out);
+  ASSERT((r == 1) == ok && (r == 0 || r == 1), "accepted iff broadcastable");
+  if (r == 1){ ASSERT(od == 2 && os[0] == ex[0] && os[1] == ex[1], "broadcast shape");
+    ASSERT(out == (u32)((u32)da[bsrc(sa, 2, idx, 2)] - db[bsrc(sb, 1, idx, 2)]), "uint8 (op) unsigned: element == (unsigned)a[bcast i] - b[bcast i]"); }
+  OBS(r); OBS(out); REACHED();
+}
 void h_sub_2s(void){
   u64 sa[2], idx[4], os[4] = {0}, od = 0; u32 da[16], out = 0;
   in_shape(sa, 2); in_data(da, MAXE*MAXE); u32 s = in_any32(); in_index(idx, sa, 2, 1);
